@@ -1,5 +1,444 @@
-//! placeholder, filled in by the corresponding check
-pub fn main(_rest: &[String]) -> i32 {
-    eprintln!("not implemented");
-    2
+//! C14 time allocation.
+//!
+//! `time tuples <grid.ndjson|-> <n_random> <seed> <events-out>`
+//!     Every line of the grid file is a clock situation as a GUI would send it
+//!     (`{"rem","inc","orem","oinc","mtg","mt","ovh","stm","has":[own clock, own increment,
+//!     movestogo, movetime, other clock, other increment]}`, milliseconds, own = side to move);
+//!     `n_random` further situations are drawn from a seeded generator.  For each one the harness
+//!     writes the UCI text (`setoption name Move Overhead value ..`, `go wtime .. btime ..`), has
+//!     the REAL parser read it, builds `Clocks`/`TimeControl` with the same statements as
+//!     `Uci::execute` (which is private), builds a `Game` with the requested side to move, calls
+//!     the real `TimeStrategy::new` and logs what was sent, what the parser made of it, and the
+//!     limits read through the `verif_limits` accessor.  A panic is data (`"out":"panic"`).
+//!
+//!     TLC integers are 32 bit, so durations are logged as two limbs `[whole ms, ns within the ms]`
+//!     and every event carries `rng`: 2 = all inputs small enough for the CodeView arithmetic,
+//!     1 = PropertyView only, 0 = not representable (numeric fields are -1; crash-freedom only;
+//!     such situations are generated with overhead 0 and without movestogo so that they lie in
+//!     the property's domain by construction).
+//!
+//! `time pollgap <fens.txt> <wtime_ms> <n_searches> <events-out>`
+//!     Runs real searches under `go wtime t btime t` while a monitor thread watches the H1 poll
+//!     counter (`verif::polls()`, one count per load of the stop flag, i.e. per in-iteration poll
+//!     and per iteration boundary) and records the time of every change: `{ev:"poll",run,k,t}`
+//!     (t in ns since `TimeStrategy::new`), then `{ev:"ret",run,t,soft,hard,polls}`.
+use crate::chess::game::Game;
+use crate::engine::options::EngineOptions;
+use crate::engine::search::time_control::TimeStrategy;
+use crate::engine::search::{self, Clocks, NullReporter, PersistentState, SearchRestrictions, TimeControl};
+use crate::engine::uci::commands::{GoCmdArguments, UciCommand};
+use crate::engine::uci::parser;
+use crate::engine::util::verif;
+use serde_json::{json, Map, Value};
+use std::io::{BufRead, Write};
+use std::sync::atomic::{AtomicBool, Ordering};
+use std::sync::Arc;
+use std::time::{Duration, Instant};
+
+const START_W: &str = "rnbqkbnr/pppppppp/8/8/8/8/PPPPPPPP/RNBQKBNR w KQkq - 0 1";
+const START_B: &str = "rnbqkbnr/pppppppp/8/8/8/8/PPPPPPPP/RNBQKBNR b KQkq - 0 1";
+
+/// Largest values the specification's arithmetic takes (see TimeAlloc.tla, "Ranges").
+const CV_MAX_MS: i128 = 100_000_000;
+const CV_MAX_MTG: i128 = 10_000;
+const PV_MAX_MS: i128 = 2_000_000_000;
+
+#[derive(Clone, Debug, Default)]
+struct Sit {
+    wt: Option<i64>,
+    bt: Option<i64>,
+    wi: Option<i64>,
+    bi: Option<i64>,
+    mtg: Option<u32>,
+    mt: Option<i64>,
+    ovh: u64,
+    black: bool,
+    src: &'static str,
+}
+
+fn opt_i64(v: &Value, k: &str) -> Option<i64> {
+    v.get(k).and_then(Value::as_i64)
+}
+
+impl Sit {
+    /// Grid lines are in the model's vocabulary: `rem/inc` for the side to move, `orem/oinc` for
+    /// the other side, `has = [own clock, own inc, movestogo, movetime, other clock, other inc]`.
+    fn from_json(v: &Value) -> Sit {
+        let has: Vec<bool> = v["has"].as_array().unwrap().iter().map(|x| x.as_i64() == Some(1)).collect();
+        let f = |k: &str, on: bool| if on { Some(v[k].as_i64().unwrap()) } else { None };
+        let black = v["stm"].as_str() == Some("b");
+        let (own, oinc_own) = (f("rem", has[0]), f("inc", has[1]));
+        let (other, oinc_other) = (f("orem", has[4]), f("oinc", has[5]));
+        let (wt, bt, wi, bi) = if black { (other, own, oinc_other, oinc_own) } else { (own, other, oinc_own, oinc_other) };
+        Sit {
+            wt, bt, wi, bi,
+            mtg: f("mtg", has[2]).map(|x| x as u32),
+            mt: f("mt", has[3]),
+            ovh: v["ovh"].as_u64().unwrap_or(0),
+            black,
+            src: "grid",
+        }
+    }
+
+    fn go_line(&self) -> String {
+        let mut s = String::from("go");
+        let mut put = |k: &str, v: Option<String>| {
+            if let Some(v) = v {
+                s.push(' ');
+                s.push_str(k);
+                s.push(' ');
+                s.push_str(&v);
+            }
+        };
+        put("wtime", self.wt.map(|x| x.to_string()));
+        put("btime", self.bt.map(|x| x.to_string()));
+        put("winc", self.wi.map(|x| x.to_string()));
+        put("binc", self.bi.map(|x| x.to_string()));
+        put("movestogo", self.mtg.map(|x| x.to_string()));
+        put("movetime", self.mt.map(|x| x.to_string()));
+        s
+    }
+}
+
+// ------------------------------------------------------------------ seeded generator
+struct Rng(u64);
+impl Rng {
+    fn next(&mut self) -> u64 {
+        self.0 = self.0.wrapping_add(0x9E37_79B9_7F4A_7C15);
+        let mut z = self.0;
+        z = (z ^ (z >> 30)).wrapping_mul(0xBF58_476D_1CE4_E5B9);
+        z = (z ^ (z >> 27)).wrapping_mul(0x94D0_49BB_1331_11EB);
+        z ^ (z >> 31)
+    }
+    fn below(&mut self, n: u64) -> u64 {
+        if n == 0 { 0 } else { self.next() % n }
+    }
+    fn unit(&mut self) -> f64 {
+        (self.next() >> 11) as f64 / (1u64 << 53) as f64
+    }
+    /// log-uniform integer in 0..=max (0 and 1 included)
+    fn logu(&mut self, max: f64) -> i64 {
+        let x = (self.unit() * (max + 1.0).ln()).exp() - 1.0;
+        x.round().max(0.0) as i64
+    }
+    fn pick<T: Copy>(&mut self, xs: &[T]) -> T {
+        xs[self.below(xs.len() as u64) as usize]
+    }
+}
+
+const SPECIAL_REM: [i64; 14] = [0, 1, 2, 3, 149, 150, 151, 199, 200, 201, 999, 1000, 1001, 10_000_000];
+
+fn random_sit(r: &mut Rng) -> Sit {
+    let mut s = Sit { src: "rand", ..Sit::default() };
+    s.black = r.below(2) == 1;
+    let clock = |r: &mut Rng| -> i64 {
+        match r.below(20) {
+            0 | 1 => r.pick(&SPECIAL_REM),
+            2 => -r.logu(1e4),
+            _ => r.logu(1e7),
+        }
+    };
+    let own = if r.below(20) == 0 { None } else { Some(clock(r)) };
+    let other = if r.below(8) == 0 { None } else { Some(clock(r)) };
+    let inc = |r: &mut Rng| -> Option<i64> {
+        match r.below(10) {
+            0..=2 => None,
+            3 | 4 => Some(0),
+            5..=7 => Some(r.logu(3e4)),
+            8 => Some(r.logu(1e7)),
+            _ => Some(r.pick(&[1i64, 50, 100, 1000, 2000, 5000, 10_000, -5])),
+        }
+    };
+    let (oi, ti) = (inc(r), inc(r));
+    if s.black {
+        s.bt = own; s.wt = other; s.bi = oi; s.wi = ti;
+    } else {
+        s.wt = own; s.bt = other; s.wi = oi; s.bi = ti;
+    }
+    s.mtg = match r.below(20) {
+        0..=8 => None,
+        9..=14 => Some(1 + r.below(40) as u32),
+        15..=17 => Some(1 + r.below(100) as u32),
+        18 => Some(1 + r.logu(1e4) as u32),
+        _ => Some(r.pick(&[1u32, 2, 100, 101, 1000, 10_000])),
+    };
+    let rem = own.unwrap_or(0).max(0) as u64;
+    s.ovh = match r.below(10) {
+        0..=3 => 0,
+        4..=7 => r.below((rem / 2).min(1000) + 1),          // inside the property's domain
+        8 => (rem / 2).min(1000),                           // on its edge
+        _ => rem / 2 + 1 + r.below(1000),                   // outside: crash-freedom only
+    };
+    if r.below(25) == 0 {
+        s.mt = Some(r.logu(1e6));
+        if r.below(2) == 0 {
+            s.wt = None; s.bt = None;
+        }
+    }
+    if s.wt.is_none() && s.bt.is_none() && s.mt.is_none() && r.below(2) == 0 {
+        s.mt = Some(r.logu(1e5));
+    }
+    s
+}
+
+// ------------------------------------------------------------------ one situation
+fn limbs(d: Duration) -> Value {
+    let ns = d.as_nanos();
+    let ms = ns / 1_000_000;
+    if ms > PV_MAX_MS as u128 {
+        json!([-1, -1])
+    } else {
+        json!([ms as i64, (ns % 1_000_000) as i64])
+    }
+}
+
+fn ms_of(d: Option<Duration>) -> i128 {
+    d.map_or(-1, |x| x.as_millis() as i128)
+}
+
+/// The statements of `Uci::execute` for `go`, verbatim apart from `self.`.
+fn time_control_of(args: &GoCmdArguments) -> TimeControl {
+    let GoCmdArguments { wtime, btime, winc, binc, movestogo, movetime, .. } = args;
+    let clocks = Clocks {
+        white_clock: *wtime,
+        black_clock: *btime,
+        white_increment: *winc,
+        black_increment: *binc,
+        moves_to_go: *movestogo,
+    };
+
+    let mut time_control = TimeControl::Infinite;
+
+    if let Some(move_time) = movetime {
+        time_control = TimeControl::ExactTime(*move_time);
+    }
+
+    if wtime.is_some() || btime.is_some() {
+        time_control = TimeControl::Clocks(clocks);
+    }
+    time_control
+}
+
+fn options_with_overhead(ovh: u64) -> Result<(EngineOptions, String), String> {
+    let line = format!("setoption name Move Overhead value {ovh}");
+    let mut options = EngineOptions::default();
+    match parser::parse(&line)? {
+        UciCommand::SetOption { name, value } if name == "Move Overhead" => {
+            // MoveOverheadOption::set (module `uci::options` is private)
+            options.move_overhead = value.parse::<usize>().map_err(|_| "Invalid value".to_string())?;
+        }
+        other => return Err(format!("setoption parsed as {other:?}")),
+    }
+    Ok((options, line))
+}
+
+fn run_sit(i: u64, s: &Sit) -> Value {
+    let go = s.go_line();
+    let mut m = Map::new();
+    m.insert("ev".into(), json!("lim"));
+    m.insert("i".into(), json!(i));
+    m.insert("src".into(), json!(s.src));
+    m.insert("go".into(), json!(go));
+    m.insert("side".into(), json!(if s.black { "b" } else { "w" }));
+
+    // what the GUI sent for the side to move (-1 = not sent); negative numbers are sent as such
+    let (own, inc) = if s.black { (s.bt, s.bi) } else { (s.wt, s.wi) };
+    let (other, other_inc) = if s.black { (s.wt, s.wi) } else { (s.bt, s.bi) };
+    let sent: [(&str, Option<i128>); 5] = [
+        ("rem", own.map(i128::from)),
+        ("inc", inc.map(i128::from)),
+        ("mtg", s.mtg.map(i128::from)),
+        ("mt", s.mt.map(i128::from)),
+        ("ovh", Some(i128::from(s.ovh))),
+    ];
+    let big = |x: Option<i128>, lim: i128| x.map_or(false, |v| v.abs() > lim);
+    let rng = if sent.iter().any(|(_, v)| big(*v, PV_MAX_MS)) || big(other.map(i128::from), PV_MAX_MS) {
+        0
+    } else if big(sent[0].1, CV_MAX_MS) || big(sent[1].1, CV_MAX_MS) || big(sent[2].1, CV_MAX_MTG)
+        || big(sent[3].1, CV_MAX_MS) || big(sent[4].1, CV_MAX_MS)
+    {
+        1
+    } else {
+        2
+    };
+    m.insert("rng".into(), json!(rng));
+    m.insert("has".into(), json!([own.is_some() as i64, inc.is_some() as i64, s.mtg.is_some() as i64,
+                                  s.mt.is_some() as i64, other.is_some() as i64, other_inc.is_some() as i64]));
+    for (k, v) in sent {
+        m.insert(k.into(), json!(if rng == 0 { -1 } else { v.unwrap_or(-1) as i64 }));
+    }
+
+    let res = std::panic::catch_unwind(|| -> Result<(Value, Value, Value, &'static str), String> {
+        let (options, _setline) = options_with_overhead(s.ovh)?;
+        let args = match parser::parse(&go)? {
+            UciCommand::Go(a) => a,
+            other => return Err(format!("go parsed as {other:?}")),
+        };
+        let game = Game::from_fen(if s.black { START_B } else { START_W })?;
+        let tc = time_control_of(&args);
+        let kind = match tc {
+            TimeControl::Clocks(_) => "clocks",
+            TimeControl::ExactTime(_) => "exact",
+            TimeControl::Infinite => "infinite",
+        };
+        // what the parser made of the text, for the side to move
+        let (p_own, p_inc) = if s.black { (args.btime, args.binc) } else { (args.wtime, args.winc) };
+        let parsed = [ms_of(p_own), ms_of(p_inc), args.movestogo.map_or(-1, i128::from), ms_of(args.movetime),
+                      options.move_overhead as i128];
+        let parsed: Vec<i64> = parsed.iter().map(|x| if *x > PV_MAX_MS { -2 } else { *x as i64 }).collect();
+        let (ts, _control) = TimeStrategy::new(&game, &tc, &options);
+        let (soft, hard) = ts.verif_limits();
+        Ok((json!(parsed), limbs(soft), limbs(hard), kind))
+    });
+    let blank = |m: &mut Map<String, Value>| {
+        m.insert("parsed".into(), json!([-1, -1, -1, -1, -1]));
+        m.insert("soft".into(), json!([0, 0]));
+        m.insert("hard".into(), json!([0, 0]));
+        m.insert("tc".into(), json!("none"));
+    };
+    match res {
+        Ok(Ok((parsed, soft, hard, kind))) => {
+            m.insert("out".into(), json!("ok"));
+            m.insert("parsed".into(), parsed);
+            m.insert("soft".into(), soft);
+            m.insert("hard".into(), hard);
+            m.insert("tc".into(), json!(kind));
+            m.insert("msg".into(), json!(""));
+        }
+        Ok(Err(e)) => {
+            m.insert("out".into(), json!("rejected"));
+            blank(&mut m);
+            m.insert("msg".into(), json!(e));
+        }
+        Err(p) => {
+            let msg = p.downcast_ref::<&str>().map(|x| (*x).to_string())
+                .or_else(|| p.downcast_ref::<String>().cloned())
+                .unwrap_or_default();
+            m.insert("out".into(), json!("panic"));
+            blank(&mut m);
+            m.insert("msg".into(), json!(msg));
+        }
+    }
+    Value::Object(m)
+}
+
+fn tuples(rest: &[String]) -> i32 {
+    if rest.len() < 4 {
+        eprintln!("usage: time tuples <grid.ndjson|-> <n_random> <seed> <events-out>");
+        return 2;
+    }
+    let n_random: u64 = rest[1].parse().unwrap();
+    let seed: u64 = rest[2].parse().unwrap();
+    let mut out = std::io::BufWriter::new(std::fs::File::create(&rest[3]).unwrap());
+    let (mut n, mut panics, mut grid) = (0u64, 0u64, 0u64);
+    let mut emit = |s: &Sit, n: &mut u64, panics: &mut u64| {
+        *n += 1;
+        let ev = run_sit(*n, s);
+        if ev["out"] == "panic" {
+            *panics += 1;
+        }
+        writeln!(out, "{ev}").unwrap();
+    };
+    if rest[0] != "-" {
+        let f = std::io::BufReader::new(std::fs::File::open(&rest[0]).unwrap());
+        for line in f.lines() {
+            let line = line.unwrap();
+            if line.trim().is_empty() {
+                continue;
+            }
+            let v: Value = serde_json::from_str(&line).unwrap();
+            emit(&Sit::from_json(&v), &mut n, &mut panics);
+            grid += 1;
+        }
+    }
+    let mut r = Rng(seed ^ 0xC14C_14C1_4C14_C14C);
+    for _ in 0..n_random {
+        emit(&random_sit(&mut r), &mut n, &mut panics);
+    }
+    drop(emit);
+    out.flush().unwrap();
+    println!("{}", json!({"events": n, "grid": grid, "random": n_random, "panics": panics}));
+    0
+}
+
+// ------------------------------------------------------------------ poll gaps
+fn pollgap(rest: &[String]) -> i32 {
+    if rest.len() < 4 {
+        eprintln!("usage: time pollgap <fens.txt> <wtime_ms> <n_searches> <events-out>");
+        return 2;
+    }
+    let fens: Vec<String> = std::fs::read_to_string(&rest[0]).unwrap().lines()
+        .map(|l| l.trim().to_string()).filter(|l| !l.is_empty()).collect();
+    let t_ms: u64 = rest[1].parse().unwrap();
+    let n: usize = rest[2].parse().unwrap();
+    let mut out = std::io::BufWriter::new(std::fs::File::create(&rest[3]).unwrap());
+    let mut state = PersistentState::new(16);
+    let (mut runs, mut polls_total) = (0u64, 0u64);
+    for (run, fen) in fens.iter().cycle().take(n).enumerate() {
+        let Ok(game) = Game::from_fen(fen) else { continue };
+        if game.moves().is_empty() {
+            continue;
+        }
+        let go = format!("go wtime {t_ms} btime {t_ms}");
+        let Ok(UciCommand::Go(args)) = parser::parse(&go) else { return 2 };
+        let tc = time_control_of(&args);
+        let options = EngineOptions::default();
+        state.reset();
+        verif::set_stop_at_poll(0);
+        let done = Arc::new(AtomicBool::new(false));
+        let origin = Instant::now();
+        let (mut ts, _control) = TimeStrategy::new(&game, &tc, &options);
+        let (soft, hard) = ts.verif_limits();
+        let mon = {
+            let done = done.clone();
+            std::thread::spawn(move || {
+                let mut seen = 0u64;
+                let mut log: Vec<(u64, u64)> = Vec::new();
+                loop {
+                    let k = verif::polls();
+                    if k != seen {
+                        seen = k;
+                        log.push((k, origin.elapsed().as_nanos() as u64));
+                    }
+                    if done.load(Ordering::Acquire) {
+                        break;
+                    }
+                    std::hint::spin_loop();
+                }
+                log
+            })
+        };
+        let res = std::panic::catch_unwind(std::panic::AssertUnwindSafe(|| {
+            search::search(&game, &mut state, &mut ts, &SearchRestrictions { depth: None }, &options,
+                           &mut NullReporter)
+        }));
+        let t_ret = origin.elapsed().as_nanos() as u64;
+        done.store(true, Ordering::Release);
+        let log = mon.join().unwrap();
+        for (k, t) in &log {
+            writeln!(out, "{}", json!({"ev": "poll", "run": run, "k": k, "t": t.min(&2_000_000_000)})).unwrap();
+        }
+        writeln!(out, "{}", json!({"ev": "ret", "run": run, "k": verif::polls(), "t": t_ret.min(2_000_000_000),
+            "soft": soft.as_nanos() as u64, "hard": hard.as_nanos() as u64,
+            "out": if res.is_ok() { "ok" } else { "panic" }, "fen": fen})).unwrap();
+        runs += 1;
+        polls_total += log.len() as u64;
+        if res.is_err() {
+            state = PersistentState::new(16);
+        }
+    }
+    out.flush().unwrap();
+    println!("{}", json!({"runs": runs, "polls": polls_total}));
+    0
+}
+
+pub fn main(rest: &[String]) -> i32 {
+    match rest.first().map(String::as_str) {
+        Some("tuples") => tuples(&rest[1..]),
+        Some("pollgap") => pollgap(&rest[1..]),
+        _ => {
+            eprintln!("usage: time tuples|pollgap ...");
+            2
+        }
+    }
 }
